@@ -127,7 +127,13 @@ TRANSFORMS = {'reformat': t_reformat, 'rename': t_rename, 'docstr': t_docstr}
 
 
 def main():
-    which = sys.argv[1:] or list(TRANSFORMS)
+    args = [a for a in sys.argv[1:] if not a.startswith('--')]
+    packs = [a[2:] for a in sys.argv[1:] if a.startswith('--C')]
+    global ALL
+    if packs:
+        ALL = packs
+    which = args or list(TRANSFORMS)
+    verbose = '--all' in sys.argv
     base = {}
     for pid in ALL:
         pack = importlib.import_module(f'sa.packs.{pid.lower()}')
@@ -159,7 +165,7 @@ def main():
             new = sorted(fails - (base[pid] or set()))
             if new:
                 bad += 1
-                print(f'{name} {pid}: FALSE ALARMS {len(new)}: {new[:4]}')
+                print(f'{name} {pid}: FALSE ALARMS {len(new)}: {new if verbose else new[:4]}')
             elif res.get('floor_error'):
                 print(f'{name} {pid}: floor error {res["floor_error"][:120]}')
             else:
